@@ -79,6 +79,11 @@ InAsm(asm, id, t) == \E i \in DOMAIN asm : asm[i][1] = id /\ asm[i][2] = t
 
 LiveParams(e) == LET K(p) == p.ty # -1 IN SelectSeq(e.params, K)
 
+\* Cow is transparent on the registry side
+RECURSIVE UnCow(_, _)
+UnCow(reg, id) == IF HasId(reg, id) /\ Ty(reg, id).path = <<"Cow">> /\ Len(Ty(reg, id).params) = 1 /\ Ty(reg, id).params[1].ty # -1
+                  THEN UnCow(reg, Ty(reg, id).params[1].ty) ELSE id
+
 (* ------------------------------------ Faithful ------------------------------------ *)
 RECURSIVE Faithful(_, _, _, _, _, _)
 RECURSIVE FieldsFaithful(_, _, _, _, _, _, _)
@@ -92,8 +97,9 @@ FieldsFaithful(reg, S, Root, rf, gf, genv, asm) ==
        IN /\ f.name = g.name
           /\ HasId(reg, f.ty)
           /\ IF g.compact
-             THEN /\ Ty(reg, f.ty).def.k = "compact"
-                  /\ Faithful(reg, S, Root, Ty(reg, f.ty).def.of, gt, asm)
+             THEN LET fid == UnCow(reg, f.ty) IN
+                  /\ HasId(reg, fid) /\ Ty(reg, fid).def.k = "compact"
+                  /\ Faithful(reg, S, Root, Ty(reg, fid).def.of, gt, asm)
              ELSE Faithful(reg, S, Root, f.ty, gt, asm)
 
 Faithful(reg, S, Root, id, t0, asm) ==
